@@ -140,6 +140,28 @@ pub fn run(ctx: &mut Ctx) {
         let (r, secs) = timed({ let qr = qr.clone(); let reg = reg.clone(); move || reader::SessionManager::establish_session(qr, sess::simple_namespaces(&["a"]), reg).is_ok() });
         report(ctx, "establish_session", kind_of(what), r.is_err(), secs, b, r.as_ref().err().map(|s| s.as_str()).unwrap_or(""));
     }
+    // inputs that might not come back or might take the process down are run in a process of their own (`--probe`): URIs with
+    // slashes and other separators after the scheme (a loop is a hang, not a panic), and element values nested far deeper than any
+    // decoder limit by means that restart the decoder (tag 24 inside tag 24 ...), arrays and maps inside each other
+    for uri in ["mdoc:/", "mdoc://", "mdoc:///", "mdoc:/AAAA", "mdoc://AAAA", "mdoc:///AAAA", "mdoc:////AAAA", "mdoc:?", "mdoc:#", "mdoc:%2F", "mdoc:\\", "mdoc: AAAA", "mdoc:\tAAAA", "mdoc:=AAAA", "mdoc:AAAA="] {
+        let r = crate::probe_in_child("establish_session", "", uri.as_bytes(), "uri");
+        ctx.emit.line("spec", "spec:establish_session:uri-in-child", format!("spec.eq {} ok", r.replace(' ', "_")), "true".into(), serde_json::json!({"entry": "establish_session", "uri": uri, "msg_hex": hex::encode(uri.as_bytes())}));
+    }
+    { use isomdl::presentation::Stringify;
+      let state = live.sim.rdr.stringify().unwrap();
+      let n = sess::peek_reader(&live.sim.rdr).dev_ctr + 1;
+      let deep = |kind: usize, layers: usize| -> Value { let mut v = Value::Text("x".into());
+          for _ in 0..layers { v = match kind { 0 => Value::Tag(24, Box::new(Value::Bytes(to_bytes(&v)))), 1 => Value::Array(vec![v]), 2 => Value::Map(vec![(Value::Text("k".into()), v)]), _ => Value::Tag(0, Box::new(v)) }; } v };
+      for (kind, kname) in [(0usize, "tag24-bstr"), (1, "array"), (2, "map"), (3, "tag")] { for layers in [8usize, 200, 3000, if kind == 0 { 12000 } else { 3000 }] {
+          if kind != 0 && layers > 200 && !ctx.thorough && kind != 1 { continue; }
+          let mut v = live.resp.clone();
+          if let Some(items) = auth::items_mut(&mut v, sess::NS) { if let Some(Value::Tag(24, inner)) = items.first_mut() { if let Value::Bytes(b) = &mut **inner {
+              if let Ok(mut iv) = cbor::from_slice::<Value>(b) { if let Some(ev) = mget_mut(&mut iv, "elementValue") { *ev = deep(kind, layers); } *b = to_bytes(&iv); } } } }
+          let msg = live.wire_message(&v, n);
+          let r = crate::probe_in_child("handle_response", &state, &msg, "deep");
+          ctx.emit.line("spec", "spec:handle_response:deep-element-value-in-child", format!("spec.eq {} ok", r.replace(' ', "_")), "true".into(),
+              serde_json::json!({"entry": "handle_response", "nesting": kname, "layers": layers, "msg_hex": format!("{kname}-{layers}")}));
+      } } }
     // text around the scheme: every prefix length, other cases, and multi-byte characters lying ACROSS each of the
     // first eight byte offsets (a byte-indexed slice of the URI must not split a character)
     let mut uris: Vec<String> = ["", "mdoc:", "mdoc:!!!!", "mdoc:AA", "http://x", "mdoc:\u{0}", "MDOC:AA", "Mdoc:", "mdoc", "mdo", "m", "mdoc\u{ff1a}AA", "mdoc\u{e9}"].iter().map(|s| s.to_string()).collect();
